@@ -38,6 +38,10 @@ type eMapLit struct{ k, v expr } // {k: v}
 type sExpr struct{ e expr }
 type sLet struct{ lhs, rhs expr }
 type sAddEq struct{ lhs, rhs expr }
+
+// sLet2 is `l1, l2 = r1, r2`: both right sides are evaluated (their values taken)
+// before anything is stored, as in Go (`a[0], a[1] = a[1], a[0]` swaps)
+type sLet2 struct{ l1, l2, r1, r2 expr }
 type sDel struct{ m, k expr }
 type sMapItem struct { // v, ok = m[k]
 	v, ok expr
@@ -103,6 +107,8 @@ func renderStmt(s stmt, m *machine) string {
 		return render(x.e, m)
 	case sLet:
 		return render(x.lhs, m) + " = " + render(x.rhs, m)
+	case sLet2:
+		return render(x.l1, m) + ", " + render(x.l2, m) + " = " + render(x.r1, m) + ", " + render(x.r2, m)
 	case sAddEq:
 		return render(x.lhs, m) + " += " + render(x.rhs, m)
 	case sMapItem:
@@ -154,6 +160,8 @@ func stmtUses(s stmt, name string) bool {
 		return exprUses(x.e, name)
 	case sLet:
 		return exprUses(x.lhs, name) || exprUses(x.rhs, name)
+	case sLet2:
+		return exprUses(x.l1, name) || exprUses(x.l2, name) || exprUses(x.r1, name) || exprUses(x.r2, name)
 	case sAddEq:
 		return exprUses(x.lhs, name) || exprUses(x.rhs, name)
 	case sDel:
@@ -430,6 +438,14 @@ func buildAlphabet() []op {
 	add("append/mixed", false, sAddEq{u, litSl8})
 	// an element without a conversion AFTER a convertible one: the append fails and
 	// nothing may have been stored (u's spare capacity is visible through t)
+	// multiple assignment: the right side values are taken before anything is stored
+	add("swap", true, sLet2{idx(a, litInt(0)), idx(a, litInt(1)), idx(a, litInt(1)), idx(a, litInt(0))})
+	add("swap", false, sLet2{idx(a, litInt(0)), idx(a, litInt(2)), idx(a, litInt(2)), idx(a, litInt(0))})
+	add("swap", false, sLet2{idx(b, litInt(0)), idx(a, litInt(1)), idx(a, litInt(1)), idx(b, litInt(0))})
+	add("swap", false, sLet2{idx(t, litInt(0)), idx(t, litInt(1)), idx(t, litInt(1)), idx(t, litInt(0))})
+	add("swap", false, sLet2{idx(u, litInt(0)), idx(t, litInt(1)), idx(t, litInt(1)), idx(u, litInt(0))})
+	add("swap", false, sLet2{x, idx(a, litInt(0)), idx(a, litInt(0)), litInt(7)})
+	add("swap", false, sLet2{idx(a, litInt(0)), x, litInt(7), idx(a, litInt(0))})
 	add("append/mixed-fails", false, sLet{x, eAdd{u, litSl7z}})
 	add("append/mixed-fails", false, sAddEq{u, litSl7z})
 	add("append/mixed-fails", false, sLet{x, eAdd{t, litSl7z}})
